@@ -121,6 +121,19 @@ def erase_tokens(toks):
     return out
 
 
+def unawaited_calls(fn) -> list:
+    """Python mirror of the Lean `unawaited` (classification only): calls of *_async names that are not awaited."""
+    awaited = {id(n.value) for n in ast.walk(fn) if isinstance(n, ast.Await)}
+    out = []
+    for n in ast.walk(fn):
+        if isinstance(n, ast.Call) and id(n) not in awaited:
+            f = n.func
+            name = f.attr if isinstance(f, ast.Attribute) else f.id if isinstance(f, ast.Name) else ""
+            if name.endswith("_async"):
+                out.append(name)
+    return out
+
+
 def toks_lean(toks) -> str:
     return "[" + ", ".join(f"({lean_str(l)}, {a})" for l, a in toks) + "]"
 
@@ -221,7 +234,7 @@ def emit(repo: Path) -> dict:
     L.append("set_option maxRecDepth 100000")
     L.append("namespace LiquidVerif.Gen.AsyncPairs")
     L.append("open LiquidVerif.Erase\n")
-    equal_names, residuals, delegations, side = [], [], [], []
+    equal_names, residuals, delegations, side, unawaited_pairs = [], [], [], [], []
     for i, (path, cname, name, fs, fa) in enumerate(pairs):
         qual = f"{path}:{cname + '.' if cname else ''}{name}"
         ta, ts = [], []
@@ -231,6 +244,11 @@ def emit(repo: Path) -> dict:
         L.append(f"-- {qual}")
         L.append(f"def p{i}_async : List (String × Int) := {toks_lean(ta)}")
         L.append(f"def p{i}_sync : List (String × Int) := {toks_lean(ts)}")
+        ua = unawaited_calls(fa)
+        if ua:
+            unawaited_pairs.append(qual)
+        else:
+            L.append(f"theorem p{i}_awaited : unawaited (decode p{i}_async) = false := by decide +kernel")
         if eq:
             L.append(f"theorem p{i}_erase_equal : eraseEq p{i}_async p{i}_sync = true := by decide +kernel")
             equal_names.append(qual)
@@ -247,11 +265,13 @@ def emit(repo: Path) -> dict:
     L.append("/-- pairs whose erasures differ, with a digest of both erased trees -/")
     L.append("def residuals : List (String × String) := [" + ", ".join(f"({lean_str(n)}, {lean_str(d)})" for n, d in residuals) + "]\n")
     L.append("def delegations : List String := [" + ", ".join(lean_str(n) for n in delegations) + "]\n")
+    L.append("/-- async halves that call a `*_async` name without awaiting it on the spot -/")
+    L.append("def unawaitedPairs : List String := [" + ", ".join(lean_str(n) for n in unawaited_pairs) + "]\n")
     L.append("/-- `*_async` methods of a class with no synchronous twin in the same class body -/")
     L.append("def asyncOnly : List String := [" + ", ".join(lean_str(n) for n in async_only) + "]\n")
     mm = mro_mismatches(repo)
     L.append("/-- classes whose sync and async halves resolve (by MRO) to different classes, non-delegating -/")
     L.append("def mroMismatches : List String := [" + ", ".join(lean_str(n) for n in mm) + "]\n")
     L.append("end LiquidVerif.Gen.AsyncPairs")
-    sidecar = {"pairs": side, "residuals": residuals, "delegations": delegations, "async_only": async_only, "mro_mismatches": mm}
+    sidecar = {"pairs": side, "residuals": residuals, "delegations": delegations, "async_only": async_only, "unawaited": unawaited_pairs, "mro_mismatches": mm}
     return {"AsyncPairs.lean": "\n".join(L) + "\n", "async_pairs.json": json.dumps(sidecar, indent=1) + "\n"}
